@@ -70,7 +70,7 @@ def _check_schema(file_to_be_checked: IO[str], state_manager: ComplianceToolStat
             state_manager.add_step('Read file and check if it is conform to the json syntax')
             json_to_be_checked = json.load(file_to_be_checked)
             state_manager.set_step_status(Status.SUCCESS)
-    except json.decoder.JSONDecodeError as error:
+    except (json.decoder.JSONDecodeError, UnicodeDecodeError) as error:
         state_manager.set_step_status(Status.FAILED)
         logger.error(error)
         state_manager.add_step('Validate file against official json schema')
